@@ -9,7 +9,8 @@ From Texel Require Import Chess.Types Chess.Position Chess.PositionSpec Chess.Po
   Chess.BitBoardProofs Chess.RayProofs Chess.MagicSweep Chess.MagicProofs Chess.MoveGenProofs Chess.AttackProofs
   Chess.SliderProofs Chess.PawnProofs Chess.PseudoProofs Chess.MakeSpecProofs Chess.TryMoveProofs Chess.CastleProofs
   Chess.LegalProofs Chess.ShortcutProofs Chess.IsLegalProofs Chess.CapturesProofs Chess.NoDupProofs Chess.WfProofs Chess.IsLegalFull Chess.EvasionsIn Chess.CapChecksSub
-  Chess.IsLegalAll Chess.RemoveIllegalIndep Chess.EvasionsComplete Chess.GivesCheckProofs Chess.CapChecksComplete gen.BitBoardTables.
+  Chess.IsLegalAll Chess.RemoveIllegalIndep Chess.EvasionsComplete Chess.GivesCheckProofs Chess.CapChecksComplete
+  Chess.GivesCheckCommon Chess.GivesCheckPromo Chess.GivesCheckEp Chess.GivesCheckCastle Chess.GivesCheckAll gen.BitBoardTables.
 Import ListNotations.
 Local Open Scope N_scope.
 
@@ -262,10 +263,9 @@ Theorem C01_captures_complete : forall zk p m, emptyKeysZero zk -> WF p -> Consi
 Proof. exact captures_complete. Qed.
 Print Assumptions C01_captures_complete.
 
-(** * Full statements not (yet) proved: carried by the correspondence against the Spec
-
-    Remaining gaps, each tied to the Spec on every run by the correspondence check:
-    - C01_givesCheck: promotions, e.p. captures and castling (the rest is C01_givesCheck_partial). *)
+(** * All statements of C01 are proved (C01_givesCheck, the last open one, is at the end:
+    its promotion, e.p. and castling branches are in Chess/GivesCheckPromo.v, GivesCheckEp.v,
+    GivesCheckCastle.v, the rest is C01_givesCheck_partial). *)
 
 (** C01_nodup: no duplicates in the pseudo-legal list of a well-formed position (distinct
     (from, to, promotion) inside each block; blocks told apart by the piece on the from-square,
@@ -343,19 +343,15 @@ Theorem C01_captures_checks_complete : forall zk p m, WF p -> legal_spec (abs p)
 Proof. exact captures_checks_complete. Qed.
 Print Assumptions C01_captures_checks_complete.
 
-(** gives-check verdict for the moves the engine may play (legal moves) *)
-Definition C01_givesCheck_statement : Prop :=
-  forall p m, WF p -> legal_spec (abs p) m -> givesCheck p m = gives_check_spec (abs p) m.
-
 (** C01_givesCheck, partial form: proved for every legal move that is not a promotion, not an
     en-passant capture and not castling - direct checks by the moved piece (rook / bishop /
     queen through nextPiece towards the king, knight by the direction code, pawn by the
     adjacent diagonal square; a king never checks) and discovered checks (the from-square leaves
     the line between the king and an own slider: nextPiece towards the king, nextPieceSafe away
     from it, and the move does not stay on that line).  nextPiece never leaves the board on
-    these calls and its fuel suffices.  Not covered: the promotion branch (check by the
-    promoted piece, also along the pawn's own line), the two e.p. discovered-check branches
-    and the castling branch (check by the castled rook). *)
+    these calls and its fuel suffices.  The promotion branch (check by the promoted piece, also
+    along the pawn's own line), the e.p. discovered-check branches and the castling branch
+    (check by the castled rook) are C01_givesCheck_special below. *)
 Theorem C01_givesCheck_partial : forall p m, WF p -> legal_spec (abs p) m ->
   let w := whiteMove p in let pc := getPiece p (mfrom m) in
   mpromote m = EMPTY ->
@@ -365,6 +361,36 @@ Theorem C01_givesCheck_partial : forall p m, WF p -> legal_spec (abs p) m ->
   givesCheck p m = gives_check_spec (abs p) m.
 Proof. exact givesCheck_partial. Qed.
 Print Assumptions C01_givesCheck_partial.
+
+(** the three special branches of givesCheck, each for every legal move of its kind:
+    - promotions (with or without capture): check by the promoted piece from the target square,
+      including along the line through the pawn's vacated from-square (third block of
+      givesCheck), and discovered checks through the from-square;
+    - en-passant captures: direct check by the capturing pawn, discovered check through the
+      capturing pawn's square, through the captured pawn's square (a diagonal) and through both
+      (the rank the two pawns shared: max/min walk);
+    - castling: check by the castled rook along the home rank through the vacated king square
+      or up its file; the king gives no check and nothing is uncovered. *)
+Theorem C01_givesCheck_special : forall p m, WF p -> legal_spec (abs p) m ->
+  let w := whiteMove p in let pc := getPiece p (mfrom m) in
+  (mpromote m <> EMPTY -> givesCheck p m = gives_check_spec (abs p) m) /\
+  (is_piece w Pawn pc && negb (zf (mto m) =? zf (mfrom m))%Z && (getPiece p (mto m) =? EMPTY) = true ->
+     givesCheck p m = gives_check_spec (abs p) m) /\
+  (is_piece w King pc && (zf (mto m) - zf (mfrom m) =? 2)%Z = true \/
+   is_piece w King pc && (zf (mto m) - zf (mfrom m) =? -2)%Z = true ->
+     givesCheck p m = gives_check_spec (abs p) m).
+Proof.
+  exact (fun p m H Hl => conj (givesCheck_promotion p m H Hl)
+                              (conj (givesCheck_enpassant p m H Hl) (givesCheck_castling p m H Hl))).
+Qed.
+Print Assumptions C01_givesCheck_special.
+
+(** C01_givesCheck: gives-check verdict for the moves the engine may play - for EVERY legal move
+    of every well-formed position MoveGen::givesCheck answers exactly "the opponent's king is
+    attacked on the Spec's board after the move" *)
+Theorem C01_givesCheck : forall p m, WF p -> legal_spec (abs p) m -> givesCheck p m = gives_check_spec (abs p) m.
+Proof. exact givesCheck_all. Qed.
+Print Assumptions C01_givesCheck.
 
 (** C01_wf_preserved: a legal move leads from a well-formed position to a well-formed position
     (for any Zobrist tables; nothing is assumed about the hash / material fields): bitboards
